@@ -64,6 +64,7 @@ type pgSchema struct {
 type pgOpts struct {
 	MaxMsgs, MaxFields, MaxDepth int
 	BigNumbers                   bool // allow field number 2^20 (at most once per schema)
+	StringKeyPct                 int  // > 0: that share of the maps is string-keyed (0: uniform over the 12 key kinds, no extra draw)
 }
 
 const (
@@ -267,6 +268,9 @@ func genProtoSchema(r *rng, o pgOpts) *pgSchema {
 		default:
 			f.Label = pgMap
 			f.KeyKind = pgMapKeyKinds[r.intn(len(pgMapKeyKinds))]
+			if o.StringKeyPct > 0 && r.chance(o.StringKeyPct) {
+				f.KeyKind = pgKString
+			}
 		}
 		m.Fields = append(m.Fields, f)
 		return f
